@@ -145,6 +145,12 @@ pub struct Machine {
     pub depth: u32,
     /// text written by display/newline
     pub output: String,
+    /// library definitions known to the program, and their (single) instances
+    pub libs: HashMap<String, LibDef>,
+    pub instances: HashMap<String, Vec<(String, RVal)>>,
+    pub loading: Vec<String>,
+    /// model the interpreter's recorded behaviour "one instance per import" instead of one per program
+    pub instance_per_import: bool,
 }
 
 pub const PRIMS: &[&str] = &[
@@ -195,7 +201,7 @@ impl Machine {
         for p in PRIMS {
             g.define(p, RVal::Prim(p));
         }
-        Machine { global: g, store: vec![], trace: vec![], order, fuel: 2_000_000, depth: 0, output: String::new() }
+        Machine { global: g, store: vec![], trace: vec![], order, fuel: 2_000_000, depth: 0, output: String::new(), libs: HashMap::new(), instances: HashMap::new(), loading: vec![], instance_per_import: false }
     }
 
     pub fn datum(&mut self, d: &Datum) -> RVal {
@@ -236,7 +242,91 @@ impl Machine {
                 Ok(Some(self.eval(e, &g)?))
             }
             Form::Raw(_) => Err(RErr::OutOfClass("raw form".into())),
+            Form::Import(specs) => {
+                let g = self.global.clone();
+                for sp in specs {
+                    self.import_into(&g, sp)?;
+                }
+                Ok(None)
+            }
         }
+    }
+
+    /// a machine whose program frame starts empty (bindings only through imports)
+    pub fn bare(order: Order) -> Machine {
+        let mut m = Machine::new(order);
+        m.global = Frame::new(None);
+        m
+    }
+
+    fn import_into(&mut self, frame: &Rc<Frame>, sp: &ImportSpec) -> R<()> {
+        let exports = self.instance(&sp.lib)?;
+        for (n, v) in exports {
+            let name = match &sp.prefix {
+                Some(p) => format!("{}{}", p, n),
+                None => n,
+            };
+            frame.define(&name, v);
+        }
+        Ok(())
+    }
+
+    /// the exports of a library; evaluated once per program
+    fn instance(&mut self, lib: &str) -> R<Vec<(String, RVal)>> {
+        if lib == "scheme base" || lib == "scheme write" {
+            return Ok(PRIMS.iter().filter(|p| !matches!(**p, "tick" | "probe")).map(|p| (p.to_string(), RVal::Prim(p))).collect());
+        }
+        if !self.instance_per_import {
+            if let Some(e) = self.instances.get(lib) {
+                return Ok(e.clone());
+            }
+        }
+        let def = match self.libs.get(lib) {
+            Some(d) => d.clone(),
+            None => return Err(RErr::Other(format!("library ({}) not found", lib))),
+        };
+        if self.loading.contains(&lib.to_string()) {
+            return Err(RErr::Other("cyclic import".into()));
+        }
+        self.loading.push(lib.to_string());
+        let frame = Frame::new(None);
+        let mut result = Ok(());
+        for sp in &def.imports {
+            if let Err(e) = self.import_into(&frame, sp) {
+                result = Err(e);
+                break;
+            }
+        }
+        if result.is_ok() {
+            for f in &def.body {
+                let r = match f {
+                    Form::Define(d) => match self.eval(&d.value, &frame) {
+                        Ok(v) => {
+                            frame.define(&d.name, v);
+                            Ok(())
+                        }
+                        Err(e) => Err(e),
+                    },
+                    Form::Expr(e) => self.eval(e, &frame).map(|_| ()),
+                    _ => Err(RErr::OutOfClass("library body form".into())),
+                };
+                if let Err(e) = r {
+                    result = Err(e);
+                    break;
+                }
+            }
+        }
+        self.loading.pop();
+        result?;
+        let mut exports = vec![];
+        for (internal, external) in &def.exports {
+            match frame.get(internal) {
+                Some(v) => exports.push((external.clone(), v)),
+                None => return Err(RErr::Unbound(internal.clone())),
+            }
+        }
+        self.instances.insert(lib.to_string(), exports.clone());
+        Ok(exports)
     }
 
     fn tick_fuel(&mut self) -> R<()> {
